@@ -679,10 +679,11 @@ class UserTrackingManager:
 
     def _get_tracked_user_object(self, user: User) -> TrackedUser:
         """Gets or creates a tracked user object"""
-        if user.name in self._tracked_users:
-            tracked_user = self._tracked_users[user.name]
+        tracked_user = self._tracked_users.get(user.name)
 
-        else:
+        # A finished task no longer reads its queue: the object is only waiting
+        # to be removed by the done callback and needs to be replaced
+        if tracked_user is None or (tracked_user.task and tracked_user.task.done()):
             tracked_user = TrackedUser(user)
             tracked_user.task = asyncio.create_task(
                 self._tracking_task(tracked_user))
@@ -707,7 +708,10 @@ class UserTrackingManager:
             )
 
         finally:
-            self._tracked_users.pop(tracked_user.user.name, None)
+            # Only remove the object this task belongs to, it could have been
+            # replaced after the task finished
+            if self._tracked_users.get(tracked_user.user.name) is tracked_user:
+                del self._tracked_users[tracked_user.user.name]
 
     async def _on_state_changed(self, event: ConnectionStateChangedEvent):
         if not isinstance(event.connection, ServerConnection):
